@@ -24,4 +24,8 @@ def greedy_worlds(tier):
 
 CHECKS = [
     Check("greedy_sim", sim_execute([J.judge_c01], J.nontrivial_c01), strategy=greedy_worlds, budget={"quick": 1500, "thorough": 40000}),
+    Check("planner_sim", sim_execute([J.judge_c01], J.nontrivial_c01, planner=True, max_steps=1500), strategy=lambda tier: specs.planner_worlds(contention=True),
+          budget={"quick": 128, "thorough": 4000}),
+    Check("scripted_sim", sim_execute([J.judge_c01], J.nontrivial_c01, max_steps=1500), strategy=lambda tier: specs.scripted_worlds(batching=True, contention=True),
+          budget={"quick": 600, "thorough": 30000}),
 ]
